@@ -27,7 +27,8 @@ TraceInit ==
 
 TReset(e) ==
   /\ pc = "done"
-  /\ e.cfg.n = 0 => e.cfg.steps = <<>>
+  /\ e.cfg.n = 0 => e.cfg.steps = <<>> /\ e.cfg.pad = 0
+  /\ e.cfg.pad >= 0
   /\ cfg' = e.cfg /\ pc' = "start" /\ cur' = 0 /\ nex' = 0 /\ fail' = 0
   /\ begun' = <<>> /\ ran' = <<>> /\ execs' = <<>> /\ fin' = <<>> /\ ret' = NoRet
   /\ last' = [ev |-> "init"]
